@@ -41,6 +41,23 @@ thread_local! {
     static ARM_AT: Cell<u64> = const { Cell::new(0) }; // 0 = disarmed
     static TICKING: Cell<bool> = const { Cell::new(false) };
     static FIRED: Cell<Option<Site>> = const { Cell::new(None) };
+    // "lie" mode: instead of panicking, the armed Hash/Eq call answers wrongly (a key type
+    // with a broken Hash/Eq is still safe code: memory safety must not depend on it)
+    static LIE: Cell<bool> = const { Cell::new(false) };
+    static LIE_NOW: Cell<bool> = const { Cell::new(false) };
+    static LIE_STICKY: Cell<u32> = const { Cell::new(u32::MAX) };
+}
+
+pub fn set_lie(on: bool) {
+    LIE.with(|l| l.set(on));
+    LIE_NOW.with(|l| l.set(false));
+}
+/// keys with this number never compare equal to anything, themselves included (NaN-like)
+pub fn set_sticky_liar(k: u32) {
+    LIE_STICKY.with(|l| l.set(k));
+}
+fn take_lie() -> bool {
+    LIE_NOW.with(|l| l.replace(false))
 }
 
 pub struct InjectedPanic(pub Site);
@@ -56,6 +73,17 @@ pub fn tick(site: Site) {
         n
     });
     let arm = ARM_AT.with(|a| a.get());
+    if arm != 0 && n == arm && LIE.with(|l| l.get()) {
+        if matches!(site, Site::KeyHash | Site::KeyEq) {
+            ARM_AT.with(|a| a.set(0));
+            FIRED.with(|f| f.set(Some(site)));
+            LIE_NOW.with(|l| l.set(true));
+        } else {
+            // only Hash and Eq can lie: move on to the next call
+            ARM_AT.with(|a| a.set(arm + 1));
+        }
+        return;
+    }
     if arm != 0 && n == arm {
         // drop sites must not panic while already unwinding (that would abort the process,
         // which is the language's rule for double panics, not a property of the library)
@@ -225,12 +253,22 @@ pub struct KNum(pub u32);
 impl Hash for KNum {
     fn hash<H: Hasher>(&self, state: &mut H) {
         tick(Site::KeyHash);
-        state.write_u32(self.0);
+        if take_lie() {
+            state.write_u32(self.0 ^ 0x5a5a_5a5a);
+        } else {
+            state.write_u32(self.0);
+        }
     }
 }
 impl PartialEq for KNum {
     fn eq(&self, o: &Self) -> bool {
         tick(Site::KeyEq);
+        if take_lie() {
+            return self.0 != o.0;
+        }
+        if LIE_STICKY.with(|l| l.get()) == self.0 {
+            return false;
+        }
         self.0 == o.0
     }
 }
